@@ -265,6 +265,22 @@ func c04r2(c *Ctx, id string) {
 			x, ok1 := strings.CutSuffix(s, "[const(0)]")
 			okEnd := e == x+"[(len("+x+") - const(1))]"
 			okSrc := strings.Contains(x, ".Get)()")
+			if !okSrc && ok1 {
+				// a helper of the stream installs the range from the list it is handed (`s.assignRange(vbIDs)`): the
+				// list is judged at the helper's call sites — every one of them hands over what the discovery returned
+				for _, prm := range fn.Params {
+					if x != "param("+prm.Name()+")" {
+						continue
+					}
+					sites := w.callersOf(fn)
+					okSrc = len(sites) > 0 && len(w.usesAsValue(fn)) == 0
+					for _, cs := range sites {
+						if a := argOfParam(cs.Call.Common(), fn, prm); a == nil || !strings.HasSuffix(w.Origin(a), ".Get)()") {
+							okSrc = false
+						}
+					}
+				}
+			}
 			construct := "range-literal@" + fname(fn)
 			// the range is re-derived on every open: each return of the function is reached only through the store of
 			// this literal into the range field (a range kept from an earlier assignment would make the member ignore
